@@ -376,7 +376,25 @@ func checkAuthChain(c *fw.Ctx) {
 	// the event checked is the one popped; fetched events are queued
 	for _, call := range fw.CallsTo(fn, false, fw.NameIs("gmsl.checkAllowedByAuthEvents")) {
 		s := argSigs(call)
-		c.Check(strings.Contains(s[0], "[(builtin.len(") && strings.Contains(s[2], "param:provideEvents"), rule, "each popped event is checked against its auth events with the provider as fallback", c.P.Pos(call.Pos()), "", "checkAllowedByAuthEvents("+strings.Join(s, ", ")+")")
+		construct := "each popped event is checked against its auth events with the provider as fallback"
+		// the helper's parameter list as on the reference tree (event, table, provider, querier):
+		// with another shape the roles of the arguments are not known
+		sameShape := false
+		if callee := call.Common().StaticCallee(); callee != nil && len(callee.Params) == 4 && len(s) == 4 {
+			sameShape = strings.HasSuffix(callee.Params[2].Type().String(), "EventProvider") && strings.HasPrefix(callee.Params[1].Type().Underlying().String(), "map[")
+		}
+		switch {
+		case !sameShape:
+			c.Undecided(rule, construct, "checkAllowedByAuthEvents no longer takes (event, table, provider, querier): "+strings.Join(s, ", "))
+		case strings.Contains(s[0], "[(builtin.len(") && strings.Contains(s[2], "param:provideEvents"):
+			c.Ok(rule, construct, c.P.Pos(call.Pos()), "")
+		case strings.Contains(s[2], "param:") && !strings.Contains(s[2], "param:provideEvents") || s[2] == "nil":
+			c.Fail(rule, construct, c.P.Pos(call.Pos()), "checkAllowedByAuthEvents("+strings.Join(s, ", ")+")")
+		case !strings.Contains(s[0], "[(builtin.len(") && strings.HasPrefix(s[0], "param:"):
+			c.Fail(rule, construct, c.P.Pos(call.Pos()), "the event that is checked is "+s[0]+", not the one popped from the work list")
+		default:
+			c.Undecided(rule, construct, "checkAllowedByAuthEvents("+strings.Join(s, ", ")+")")
+		}
 	}
 }
 
@@ -473,7 +491,15 @@ func checkAllowedByAuth(c *fw.Ctx) {
 	for _, call := range fw.CallsTo(fn, false, fw.NameIs("(*gmsl.AuthEvents).AddEvent")) {
 		s := fw.Sig(call.Common().Args[1])
 		ok := strings.Contains(s, "param:eventsByID[") || strings.Contains(s, "dyn(param:missingAuth)(")
-		c.Check(ok, rule, "auth events come from the verified lookup table or the event provider", c.P.Pos(call.Pos()), s, "AddEvent receives "+s)
+		switch {
+		case ok:
+			c.Ok(rule, "auth events come from the verified lookup table or the event provider", c.P.Pos(call.Pos()), s)
+		case strings.HasPrefix(s, "param:") || strings.Contains(s, "NewEventFrom"):
+			// positive evidence: the event itself, or something parsed on the spot
+			c.Fail(rule, "auth events come from the verified lookup table or the event provider", c.P.Pos(call.Pos()), "AddEvent receives "+s)
+		default:
+			c.Undecided(rule, "auth events come from the verified lookup table or the event provider", "AddEvent receives "+s+", whose origin was not traced")
+		}
 	}
 }
 
